@@ -56,7 +56,7 @@ class Obj(Engine):
                        'SignatureHash / RawSignatureHash', 'VerifyScript']
     stubbed_components = ['nothing: no environment is involved in these properties']
     sim_time_note = 'no clock or timers: the explored dimension is the order of operations on an aliased object graph'
-    nontrivial_rule = ('run = one history (systematic preamble: every history of length <= 3 over a 17-operation alphabet; then seeded histories of '
+    nontrivial_rule = ('run = one history (systematic preamble: every history of length <= 3 over a 23-operation alphabet on two initial transactions; then seeded histories of '
                        '4-60 operations) on a pool of <= 6 handles; distinct = distinct trace-shape digest (operation kinds and targets); '
                        'non-trivial = >= 2 handles interacted (copy/snapshot/block/eq) or a cache was planted before an edit')
     quick_runs = 4000
@@ -82,12 +82,14 @@ class Obj(Engine):
             return {'op': w, 'h': h, 'i': i, 'spec': gen.gen_txin(rng) if w.startswith('vin') else gen.gen_txout(rng),
                     'as_mutable': rng.random() < 0.6, 'stack': gen.gen_stack(rng)}
         if r < 0.56:
-            return {'op': 'wit', 'h': h, 'how': rng.choice(['add', 'alter', 'empty', 'noentries', 'add', 'alter']), 'i': i,
+            return {'op': 'wit', 'h': h, 'how': rng.choice(['add', 'alter', 'empty', 'noentries', 'add', 'alter', 'inplace', 'inplace', 'inplace-empty']), 'i': i,
                     'stacks': [gen.gen_stack(rng) for _ in range(8)]}
         if r < 0.64:
             return {'op': 'snapshot', 'h': h, 'part': rng.choice(['self', 'self', 'vin', 'vout', 'prevout']), 'i': i}
-        if r < 0.72:
+        if r < 0.70:
             return {'op': 'mcopy', 'h': h, 'part': rng.choice(['self', 'self', 'vin', 'vout', 'prevout']), 'i': i}
+        if r < 0.72:
+            return {'op': 'rt', 'h': h}
         if r < 0.76:
             return {'op': 'block', 'hs': [rng.randrange(MAXH) for _ in range(rng.randint(1, 3))], 'header': gen.gen_header(rng)}
         if r < 0.84:
@@ -156,6 +158,9 @@ class Obj(Engine):
                 {'op': 'wit', 'h': 0, 'how': 'add', 'i': 0, 'stacks': st * 4},
                 {'op': 'wit', 'h': 0, 'how': 'empty', 'i': 0, 'stacks': st * 4},
                 {'op': 'wit', 'h': 0, 'how': 'noentries', 'i': 0, 'stacks': st * 4},
+                {'op': 'wit', 'h': 1, 'how': 'inplace', 'i': 0, 'stacks': st * 4},
+                {'op': 'wit', 'h': 1, 'how': 'inplace-empty', 'i': 0, 'stacks': st * 4},
+                {'op': 'eq', 'a': 0, 'b': 2},
                 {'op': 'snapshot', 'h': 0, 'part': 'self', 'i': 0},
                 {'op': 'mcopy', 'h': 0, 'part': 'self', 'i': 0},
                 {'op': 'mcopy', 'h': 1, 'part': 'self', 'i': 0},
@@ -174,11 +179,14 @@ class Obj(Engine):
         init = {'op': 'new', 'kind': 'tx', 'mutable': True, 'spec': {
             'version': 1, 'vin': [{'hash': '22' * 32, 'n': 0, 'script': '51', 'seq': 0xffffffff}, {'hash': '33' * 32, 'n': 1, 'script': '', 'seq': 0}],
             'vout': [{'value': 5, 'script': '52'}], 'locktime': 0, 'wit': [['01'], []]}}
+        # handle 1: a mutable transaction built without a witness argument (its default witness is list-backed)
+        init2 = {'op': 'new', 'kind': 'tx', 'mutable': True, 'spec': {
+            'version': 2, 'vin': [{'hash': '44' * 32, 'n': 2, 'script': '', 'seq': 1}], 'vout': [{'value': 7, 'script': '51'}], 'locktime': 9, 'wit': None}}
         plans = []
         maxlen = 3
         for L in range(1, maxlen + 1):
             for combo in itertools.product(range(len(A)), repeat=L):
-                steps = [{'t': 0.0, 'prio': 0, 'party': 0, 'op': 'new', 'args': init}]
+                steps = [{'t': 0.0, 'prio': 0, 'party': 0, 'op': 'new', 'args': init}, {'t': 0.0, 'prio': 0, 'party': 0, 'op': 'new', 'args': init2}]
                 steps += [{'t': 0.0, 'prio': 0, 'party': 0, 'op': A[k]['op'], 'args': A[k]} for k in combo]
                 plans.append({'engine': self.name, 'property': [prop], 'config': {'systematic': list(combo)}, 'steps': steps})
         return plans
@@ -365,6 +373,41 @@ class Obj(Engine):
             nin = len(h.model['vin'])
             how = a['how']
             before_txid = h.obj.GetTxid()
+            if how in ('inplace', 'inplace-empty'):
+                # the library itself builds the default witness of a mutable transaction around a plain
+                # list; editing that list in place is how a caller fills in one input's witness
+                lst = h.obj.wit.vtxinwit
+                if not isinstance(lst, list) or len(lst) != nin or nin == 0:
+                    log('skip-not-list')
+                    return None
+                k = a['i'] % nin
+                st = [] if how == 'inplace-empty' else (list(a['stacks'][0]) or ['cd'])
+                witobj = h.obj.wit
+                # An immutable copy of a witness object is documented to be the same object, so snapshots,
+                # copies and blocks may hold this very object.  Mutating it in place then reaches into
+                # objects documented immutable, which is outside the property; the edit is only performed
+                # while no other handle shares the witness object.
+                shared = False
+                for h2 in self.pool:
+                    if h2 is h:
+                        continue
+                    if h2.kind == 'tx' and h2.obj.wit is witobj:
+                        shared = True
+                    elif h2.kind == 'block' and any(t.wit is witobj for t in h2.obj.vtx):
+                        shared = True
+                if shared:
+                    log('skip-shared-witness')
+                    return None
+                lst[k] = C.CTxInWitness(S.CScriptWitness(tuple(bytes.fromhex(x) for x in st)))
+                cur = h.model.get('wit')
+                stacks = [list(x) for x in cur] if cur else [[] for _ in range(nin)]
+                stacks[k] = list(st)
+                h.model['wit'] = stacks
+                after_txid = h.obj.GetTxid()
+                ctx.check(before_txid == after_txid, 'C02.txid-witness', 'txid changed by an in-place witness edit', how=how)
+                ctx.probe('witness-edit.' + how)
+                log(how, hidx)
+                return hidx
             if how == 'add':
                 stacks = [list(a['stacks'][k % len(a['stacks'])]) for k in range(nin)]
                 if not any(stacks):
@@ -430,6 +473,22 @@ class Obj(Engine):
             self.interacted = True
             ctx.probe('%s.%s' % (op, kind))
             log('%s/%s' % (kind, part), [hidx, k2])
+            return k2
+        if op == 'rt':
+            hidx = a['h'] % len(self.pool)
+            h = self.pool[hidx]
+            try:
+                new = type(h.obj).deserialize(h.obj.serialize())
+            except Exception as e:
+                ctx.check(False, 'C09.ser', 'wire round trip of a %s raised %s: %s' % (h.kind, type(e).__name__, e), kind=h.kind)
+                return None
+            m2 = copy.deepcopy(h.model)
+            if h.kind == 'tx' and not RW.tx_has_witness(m2):
+                m2['wit'] = None
+            k2 = self._add(H(h.kind, h.mutable, new, m2))
+            self.interacted = True
+            ctx.probe('wire-round-trip.' + h.kind)
+            log(h.kind, [hidx, k2])
             return k2
         if op == 'block':
             txs = []
